@@ -105,6 +105,8 @@ def _worker_batch(args):
         if res.get("nontrivial"):
             out["nontrivial"] += 1
             out["sigs"].add(res["sig"])
+        for s_ in res.get("extra_sigs") or ():
+            out["sigs"].add(s_)
         for k, v in res.get("counters", {}).items():
             out["counters"][k] = out["counters"].get(k, 0) + v
         out["vtime"] += res.get("vtime", 0.0)
@@ -221,6 +223,16 @@ def minimise(mod, case, violation, tape, budget=300, wall=120.0):
                 best_tape, best_v = res.get("tape"), hit[0]
                 best_digest = res["digest"]
                 break
+    if hasattr(mod, "pin"):
+        pinned = mod.pin(best_case, best_v)
+        try:
+            res = mod.execute(pinned)
+            vs = res.get("violations") or []
+            hit = [v for v in vs if vclass(v) == target]
+            if hit:
+                best_case, best_tape, best_v, best_digest = pinned, res.get("tape"), hit[0], res["digest"]
+        except BaseException:  # noqa: BLE001
+            pass
     if best_digest is None:
         res = mod.execute(best_case, sched=best_tape)
         best_digest = res["digest"]
